@@ -47,6 +47,8 @@ pub struct Cfg {
     pub latency: u64,
     /// every send_to of the node completes only after this many ms (the datagram leaves at once)
     pub send_delay_ms: u64,
+    /// get_state() is called every millisecond in [from, to) (an application polling the state)
+    pub poll_state: Option<(u64, u64)>,
     pub rng_seed: u64,
 }
 
@@ -128,6 +130,13 @@ pub fn build(cfg: &Cfg) -> (Scenario, Vec<Box<dyn Peer>>) {
     sc.actions.push((When::At(cfg.horizon_ms - 20), Action::LocalAddr { node: 0, tag: "final-addr".into() }));
     sc.actions.push((When::At(cfg.horizon_ms - 20), Action::LoadContacts { node: 0, tag: "final-contacts".into() }));
     sc.actions.push((When::At(cfg.horizon_ms - 20), Action::Search { node: 0, info_hash: InfoHash::sha1(b"c15"), announce: false, tag: "final-search".into() }));
+    if let Some((from, to)) = cfg.poll_state {
+        for t in from..to {
+            // two pollers, like two tasks of the application, each asking 25 times back to back
+            sc.actions.push((When::At(t), Action::GetStateBurst { node: 0, n: 25 }));
+            sc.actions.push((When::At(t), Action::GetStateBurst { node: 0, n: 25 }));
+        }
+    }
     sc.send_delay_ms = cfg.send_delay_ms;
     sc.sample = vec![(0, 10_000, 5_000)];
     sc.horizon_ms = cfg.horizon_ms;
@@ -254,7 +263,7 @@ fn beh_parse(v: &Value) -> Beh {
     }
 }
 fn cfg_json(c: &Cfg) -> Value {
-    json!({"v6":c.v6,"read_only":c.read_only,"contacts":c.contacts.iter().map(beh_json).collect::<Vec<_>>(),"nodes":c.nodes,"routers":c.routers,"bad_routers":c.bad_routers,"twin_ids":c.twin_ids,"cancelled_waiters":c.cancelled_waiters.iter().map(|(a,b)| json!([a,b])).collect::<Vec<_>>(),"waiters":c.waiters,"horizon_ms":c.horizon_ms,"latency":c.latency,"send_delay_ms":c.send_delay_ms,"rng_seed":c.rng_seed})
+    json!({"v6":c.v6,"read_only":c.read_only,"contacts":c.contacts.iter().map(beh_json).collect::<Vec<_>>(),"nodes":c.nodes,"routers":c.routers,"bad_routers":c.bad_routers,"twin_ids":c.twin_ids,"cancelled_waiters":c.cancelled_waiters.iter().map(|(a,b)| json!([a,b])).collect::<Vec<_>>(),"waiters":c.waiters,"horizon_ms":c.horizon_ms,"latency":c.latency,"send_delay_ms":c.send_delay_ms,"poll_state":c.poll_state.map(|(a,b)| json!([a,b])),"rng_seed":c.rng_seed})
 }
 fn cfg_parse(v: &Value) -> Cfg {
     let us = |k: &str| -> Vec<usize> { v[k].as_array().map(|a| a.iter().map(|x| x.as_u64().unwrap() as usize).collect()).unwrap_or_default() };
@@ -271,6 +280,7 @@ fn cfg_parse(v: &Value) -> Cfg {
         horizon_ms: v["horizon_ms"].as_u64().unwrap_or(60_000),
         latency: v["latency"].as_u64().unwrap_or(20),
         send_delay_ms: v["send_delay_ms"].as_u64().unwrap_or(0),
+        poll_state: v["poll_state"].as_array().map(|a| (a[0].as_u64().unwrap_or(0), a[1].as_u64().unwrap_or(0))),
         rng_seed: v["rng_seed"].as_u64().unwrap_or(1),
     }
 }
@@ -301,7 +311,7 @@ pub fn replay(v: &Value) -> i32 {
 
 pub fn configs(tier: Tier, seed: u64) -> Vec<Cfg> {
     let mut out = vec![];
-    let base = |contacts: Vec<Beh>, nodes: Vec<usize>, routers: Vec<usize>, waiters: Vec<u64>, horizon: u64| Cfg { v6: false, read_only: true, contacts, nodes, routers, bad_routers: vec![], twin_ids: false, cancelled_waiters: vec![], waiters, horizon_ms: horizon, latency: 20, send_delay_ms: 0, rng_seed: seed };
+    let base = |contacts: Vec<Beh>, nodes: Vec<usize>, routers: Vec<usize>, waiters: Vec<u64>, horizon: u64| Cfg { v6: false, read_only: true, contacts, nodes, routers, bad_routers: vec![], twin_ids: false, cancelled_waiters: vec![], waiters, horizon_ms: horizon, latency: 20, send_delay_ms: 0, poll_state: None, rng_seed: seed };
     // no contacts at all
     for ro in [true, false] {
         for v6 in [false, true] {
@@ -410,6 +420,16 @@ pub fn configs(tier: Tier, seed: u64) -> Vec<Cfg> {
             out.push(c);
         }
     }
+    // an application polling get_state() while the bootstrap completes, on a node that ends with >= 10 good nodes
+    // (the state stays Bootstrapped: nothing will wake a missed waiter later)
+    for n in [12usize, 16] {
+        for lat in [1u64, 20] {
+            let mut c = base(vec![Beh::Responsive; n], (0..n).collect(), vec![], vec![0, 1, 50], 700_000);
+            c.latency = lat;
+            c.poll_state = Some((0, 1_500));
+            out.push(c);
+        }
+    }
     // more than 8 contacts of which all but one answer at once with an error (or garbage)
     for bad in [Beh::ErrorReply, Beh::Garbage] {
         for (n, good_at) in [(20usize, 19usize), (20, 0), (12, 6), (9, 8)] {
@@ -458,8 +478,8 @@ pub fn run(tier: Tier) -> Report {
     let fs = fates();
     let mut levels = vec![];
     let picks: Vec<Cfg> = vec![
-        Cfg { v6: false, read_only: true, contacts: vec![Beh::Responsive], nodes: vec![0], routers: vec![], bad_routers: vec![], twin_ids: false, cancelled_waiters: vec![], waiters: vec![0, 2_000], horizon_ms: 700_000, latency: 20, send_delay_ms: 0, rng_seed: seed },
-        Cfg { v6: false, read_only: true, contacts: vec![Beh::Responsive, Beh::Silent, Beh::Responsive], nodes: vec![0, 1, 2], routers: vec![], bad_routers: vec![], twin_ids: false, cancelled_waiters: vec![], waiters: vec![0], horizon_ms: 700_000, latency: 20, send_delay_ms: 0, rng_seed: seed },
+        Cfg { v6: false, read_only: true, contacts: vec![Beh::Responsive], nodes: vec![0], routers: vec![], bad_routers: vec![], twin_ids: false, cancelled_waiters: vec![], waiters: vec![0, 2_000], horizon_ms: 700_000, latency: 20, send_delay_ms: 0, poll_state: None, rng_seed: seed },
+        Cfg { v6: false, read_only: true, contacts: vec![Beh::Responsive, Beh::Silent, Beh::Responsive], nodes: vec![0, 1, 2], routers: vec![], bad_routers: vec![], twin_ids: false, cancelled_waiters: vec![], waiters: vec![0], horizon_ms: 700_000, latency: 20, send_delay_ms: 0, poll_state: None, rng_seed: seed },
     ];
     for cfg in picks.iter().take(tier.pick(2, 2)) {
         let run_one = |prefix: &[usize]| -> RunOutcome {
